@@ -12,8 +12,9 @@
 (* (inside the grace period), "ignore" never exits on its own, "frozen"    *)
 (* does not even answer the request (it takes CloseBlock until the close   *)
 (* gives up; FrozenCloseOk says whether Close then reports success),       *)
-(* "crashed" is already dead.  SerialiseKill = FALSE is the behaviour      *)
-(* before the fix (no kill lock).                                          *)
+(* "crashed" is already dead, "unconnected" is alive but never completed   *)
+(* the handshake (no address: Kill skips the shutdown request).            *)
+(* SerialiseKill = FALSE is the behaviour before the fix (no kill lock).   *)
 (***************************************************************************)
 EXTENDS Integers, Sequences, FiniteSets, TLC
 
@@ -33,6 +34,21 @@ KInit ==
   /\ cdl = [c \in Callers |-> 0]
   /\ forcedGraceful = FALSE /\ marker = FALSE
 
+\* every variable back to its initial value (packed traces)
+KReset ==
+  /\ now' = 0
+  /\ proc' = (IF Behaviour = "crashed" THEN "dead" ELSE IF Behaviour = "frozen" THEN "frozen" ELSE "alive")
+  /\ quitAt' = -1 /\ exitDue' = -1 /\ reaped' = FALSE /\ exitedFlag' = FALSE /\ runnerSet' = TRUE
+  /\ clientClosed' = FALSE /\ lock' = "free"
+  /\ cpc' = [c \in Callers |-> "idle"] /\ cstart' = [c \in Callers |-> -1] /\ cend' = [c \in Callers |-> -1]
+  /\ cdl' = [c \in Callers |-> 0]
+  /\ forcedGraceful' = FALSE /\ marker' = FALSE
+
+\* a Kill call at any time (the model-checking configurations issue all calls at time 0: Call)
+CallAnyTime(c) ==
+           /\ cpc[c] = "idle"
+           /\ cpc' = [cpc EXCEPT ![c] = "want"] /\ cstart' = [cstart EXCEPT ![c] = now]
+           /\ UNCHANGED <<now, proc, quitAt, exitDue, reaped, exitedFlag, runnerSet, clientClosed, lock, cend, cdl, forcedGraceful, marker>>
 Call(c) == /\ cpc[c] = "idle" /\ now = 0
            /\ cpc' = [cpc EXCEPT ![c] = "want"] /\ cstart' = [cstart EXCEPT ![c] = now]
            /\ UNCHANGED <<now, proc, quitAt, exitDue, reaped, exitedFlag, runnerSet, clientClosed, lock, cend, cdl, forcedGraceful, marker>>
@@ -48,6 +64,8 @@ Finish(c) == /\ cend' = [cend EXCEPT ![c] = now]
 Read(c) == /\ cpc[c] = "read"
            /\ IF ~runnerSet
               THEN cpc' = [cpc EXCEPT ![c] = "done"] /\ Finish(c) /\ UNCHANGED cdl
+              ELSE IF Behaviour = "unconnected"
+              THEN cpc' = [cpc EXCEPT ![c] = "force"] /\ UNCHANGED <<lock, cend, cdl>>      \* no address: nothing to close
               ELSE /\ cpc' = [cpc EXCEPT ![c] = "closing"] /\ UNCHANGED <<lock, cend>>
                    \* a close on a plugin that does not answer takes CloseBlock
                    /\ cdl' = [cdl EXCEPT ![c] = IF proc = "frozen" /\ ~clientClosed THEN now + CloseBlock ELSE now]
@@ -57,9 +75,16 @@ Read(c) == /\ cpc[c] = "read"
 Close(c) ==
   /\ cpc[c] = "closing" /\ now >= cdl[c]
   /\ clientClosed' = TRUE
-  /\ IF clientClosed \/ proc = "dead"
-     THEN \* the connection is already closed / the plugin is gone: Close fails, no grace period
+  /\ IF clientClosed
+     THEN \* the connection is already closed: Close fails, no grace period
           /\ cpc' = [cpc EXCEPT ![c] = "force"] /\ UNCHANGED <<quitAt, exitDue, cdl>>
+     ELSE IF proc = "dead"
+     THEN \* the plugin is gone: the close fails (net/rpc: the request cannot be sent) or reports
+          \* success all the same (gRPC ignores the error of the shutdown request); in the latter case
+          \* the grace period ends at once because the exit has been / is about to be observed
+          /\ UNCHANGED <<quitAt, exitDue>>
+          /\ \/ cpc' = [cpc EXCEPT ![c] = "force"] /\ UNCHANGED cdl
+             \/ cpc' = [cpc EXCEPT ![c] = "grace"] /\ cdl' = [cdl EXCEPT ![c] = now + Grace]
      ELSE IF proc = "frozen"
      THEN /\ cpc' = [cpc EXCEPT ![c] = IF FrozenCloseOk THEN "grace" ELSE "force"]
           /\ cdl' = [cdl EXCEPT ![c] = now + Grace] /\ UNCHANGED <<quitAt, exitDue>>
